@@ -85,9 +85,10 @@ hc_prop("C02",
 hc_prop("C05",
     lambda tier: [hc("ideal", 2500, 100000, tier, "C05", packets=T(tier, 300, 1500))],
     GEN + "ideal family: no faults, constant latency per direction, bursts above window / allocation / flush budget, both directions. non-trivial: >= 50 packets delivered.",
-    "Equality oracle: delivered sequence (all channels) must be the submission sequence minus TimeSensitive packets; a fully transmitted TimeSensitive packet must not be skipped; at quiescence every non-TimeSensitive packet delivered exactly once.",
+    "Equality oracle: delivered sequence (all channels) must be the submission sequence minus TimeSensitive packets; a fully transmitted TimeSensitive packet must not be skipped; at quiescence every non-TimeSensitive packet delivered exactly once; a scenario that stops making progress with a backlog (the progress monitor's stall signature) counts as packets not delivered.",
     "sequence-equality oracle over fault-free executions",
-    dict(quick=800, thorough=20000), require=["deliveries"])
+    dict(quick=800, thorough=20000), require=["deliveries"],
+    also=["C02:stall", "C11:stall"])
 
 hc_prop("C12",
     lambda tier: [hc("faulty", 2000, 80000, tier, "C12"),
@@ -130,10 +131,10 @@ hc_prop("C04",
                   hc("frag-twin", 1000, 40000, tier, "C04"),
                   dict(family="frag-rx", n=T(tier, 200, 8000), params={"batch": 10, "packets": T(tier, 60, 120)})],
     GEN + "frag-len: ONE packet per scenario, every length 0..=5794 exhaustively (then sampled lengths up to 1 MB), fragments duplicated / reordered / partly lost and resent. frag: multi-fragment heavy mixes with rates that cut packets across flushes. frag-twin: same scenario twice, second run with datagrams appended whose header disagrees with the genuine fragments of the same packet (forward link ideal so the first fragment seen is genuine). non-trivial: multi-fragment packet delivered after >= 1 duplicate / delayed / lost fragment (frag-len: delivered), twin: >= 1 conflicting datagram injected. frag-rx: the harness is the sender: its own packets, cut with the reference codec, are handed to a real receiving HalfConnection one fragment per frame in any order (shuffled / reversed / in order, 1..64 packets interleaved, windows 4..4096, ids wrapping 2^20), repeated also after delivery and behind the window, with forged fragments for packets under assembly whose header disagrees with the first genuine one (fewer / more fragments, other channel, other leads; full-size or short) aimed at slots not yet received; non-trivial = a packet that had forged fragments aimed at a missing slot was delivered.",
-    "Wire monitor: no emitted frame > 1472 bytes; every datagram equals the right slice of its packet; byte-exact delivery (C01 oracle); single packets delivered exactly once; twin-run equality of deliveries under conflicting fragments; synthetic-sender sessions: byte-identical, at-most-once, per-channel-ordered delivery and exactly-once for the ordered chain under arbitrary fragment arrival orders and forged disagreeing fragments. Length sweep is exhaustive for 0..=4*1448+2, everything else sampled.",
+    "Wire monitor: no emitted frame > 1472 bytes; every datagram equals the right slice of its packet; byte-exact delivery (C01 oracle); single packets delivered exactly once; twin-run equality of deliveries under conflicting fragments; a stall with a backlog in these families counts as packets not arriving; synthetic-sender sessions: byte-identical, at-most-once, per-channel-ordered delivery and exactly-once for the ordered chain under arbitrary fragment arrival orders and forged disagreeing fragments. Length sweep is exhaustive for 0..=4*1448+2, everything else sampled.",
     "wire-slicing monitor + exhaustive length sweep + twin-run differential",
     dict(quick=1500, thorough=20000), require=["single_packet_multifrag", "conflicting_datagrams_injected", "delivered_multifrag", "forged_into_slot_not_yet_received", "forged_fewer_fragments", "repeated_after_delivery"],
-    also=["C01:delivered-altered", "C01:delivered-unknown", "C01:delivered-twice"])
+    also=["C01:delivered-altered", "C01:delivered-unknown", "C01:delivered-twice", "C02:stall", "C11:stall", "C02:reliable-not-delivered-at-quiescence"])
 
 hc_prop("C06",
     lambda tier: [dict(family="hostile-rx", n=T(tier, 48, 1500), params={"batch": 20, "frames": T(tier, 2000, 6000)}),
@@ -247,17 +248,18 @@ def ep(family, q, t, tier, prop, **params):
     p.update(params)
     return dict(family=family, n=T(tier, q, t), params=p)
 
-def ep_prop(pid, runs, rule, level_text, technique, floor, require=None, note=""):
+def ep_prop(pid, runs, rule, level_text, technique, floor, require=None, note="", also=None):
     PROPS[pid] = dict(runs=runs, rule=EPGEN + rule, level_text=level_text, technique=technique,
                       level_note=note or "Trusted: the virtual socket/clock/rng shims and the reference wire decoder. Held only on the sessions listed in the evidence.",
-                      floor=floor, require_counters=require or [], assumptions=EP_ASSUME)
+                      floor=floor, require_counters=require or [], assumptions=EP_ASSUME, also_sigs=also or [])
 
 ep_prop("C07",
     lambda tier: [ep("handshake", 700, 30000, tier, "C07", max_clients=T(tier, 6, 24)),
                   ep("handshake-mismatch", 1500, 50000, tier, "C07"),
-                  ep("lifecycle", 300, 10000, tier, "C07")],
-    "handshake: 1..6 (thorough 24) clients connect at once through loss / duplication / delay of handshake frames and targeted loss of the first 0..11 SYNs, SYN-ACKs or ACKs, nonces incl. 0, 2^32-1 and 20-bit wrap values; run twice, the second time with forged frames from spoofed sources (SYN-ACK / ACK / error with nonces that were never issued, verbatim replays of earlier genuine handshake frames incl. SYNs, SYNs for tracked addresses, misdirected frames), followed by an echo of packets of every mode and one of the maximum size. handshake-mismatch: a grid of client/server limits and a raw wrong-version peer. non-trivial: >= 1 forged / duplicated handshake frame reached an endpoint or >= 1 handshake frame lost.",
-    "Wire-level reference check at every Connect (server: an ACK echoing a nonce it sent to that address was delivered; client: a SYN-ACK echoing its SYN nonce was delivered), at every handshake Error event (a matching error frame echoing the nonce was delivered), first data frame ids equal the exchanged nonces, at most one Connect per address, no Disconnect / handshake error on an established connection, refusals carry the right error. Twin equality of whole histories was dropped (duplicates legitimately change timing); the invariants run on both runs.",
+                  ep("lifecycle", 300, 10000, tier, "C07"),
+                  ep("limits", 400, 15000, tier, "C07")],
+    "handshake: 1..6 (thorough 24) clients connect at once through loss / duplication / delay of handshake frames and targeted loss of the first 0..11 SYNs, SYN-ACKs or ACKs, nonces incl. 0, 2^32-1 and 20-bit wrap values; run twice, the second time with forged frames from spoofed sources (SYN-ACK / ACK / error with nonces that were never issued, verbatim replays of earlier genuine handshake frames incl. SYNs, SYNs for tracked addresses, misdirected frames), followed by an echo of packets of every mode and one of the maximum size. handshake-mismatch: a grid of client/server limits and a raw wrong-version peer. limits (C17's family, run here for its handshake leftovers): more handshakes in flight than the server admits, refusals at SYN time and at activation, refused and disconnected clients coming back from the same address seconds later and staying past every timer of their earlier attempt. non-trivial: >= 1 forged / duplicated handshake frame reached an endpoint or >= 1 handshake frame lost.",
+    "Wire-level reference check at every Connect (server: an ACK echoing a nonce it sent to that address was delivered; client: a SYN-ACK echoing its SYN nonce was delivered), at every handshake Error event (a matching error frame echoing the nonce was delivered), first data frame ids equal the exchanged nonces, at most one Connect per address, no Disconnect / handshake error on an established connection, refusals carry the right error; after every server call, every address whose connection the server has reported and not ended is still known to Server::client() (`established-connection-untracked`). Twin equality of whole histories was dropped (duplicates legitimately change timing); the invariants run on both runs.",
     "history oracle on handshake wire trace + forged-frame injection",
     dict(quick=800, thorough=20000), require=["c07_server_connects_checked", "c07_client_connects_checked", "c07_first_data_frames_checked", "replayed_genuine_handshake_frame", "forged_ack_wrong_nonce", "c07_mismatch_cases_checked"])
 
@@ -269,29 +271,31 @@ ep_prop("C08",
     "lifecycle: random interleavings of send / disconnect / disconnect_now / drop / Server::drop / flush on 1..4 (thorough 16) clients and the server, faults on every frame type incl. blackouts, reconnects from the same address 0 ms..30 s after each kind of ending, finished clients stepped on for seconds. non-trivial: a connection reached Connect on the server and ended.",
     "Online automaton over every event returned by step(): Idle -Connect-> Up -Receive*-> Up -Disconnect|Error-> End, Idle -Error-> End, nothing after End; per client object and per address on the server (a new instance only after End; Server::drop counts as End).",
     "online event-stream automaton",
-    dict(quick=800, thorough=20000), require=["srv_connect", "srv_disconnect", "cli_disconnect", "client_objects_created"])
+    dict(quick=800, thorough=20000), require=["srv_connect", "srv_disconnect", "cli_disconnect", "client_objects_created"],
+    also=["C07:established-connection-untracked"])
 
 ep_prop("C09",
     lambda tier: [ep("disconnect", 2500, 80000, tier, "C09"),
                   ep("lifecycle", 800, 30000, tier, "C09")],
-    "disconnect: one side queues 0..500 packets of all modes (<= 20 kB) and calls disconnect(), with loss / duplication / delay of data, acks, Disconnect and DisconnectAck, blackouts (one or both ways) right after the call, both sides calling in 15 % of the cases. non-trivial: a flush obligation (Reliable packet queued before the call) was checked, or a Disconnect exchange took place with queued data.",
-    "History check: the peer's Disconnect event comes after the Receive of every Reliable packet submitted before disconnect() (void if the peer disconnected / dropped first, or the caller escalated to disconnect_now / drop); both ends reach a terminal event within 22 s (or their active timeout) + 12 step intervals of the first Disconnect frame (an endpoint whose own request went out later gets the budget of its own request); disconnect_now() puts the request on the wire by the caller's next step; nothing after the terminal event (C08 automaton).",
+    "disconnect: one side queues 0..500 packets of all modes (<= 20 kB) and calls disconnect(), with loss / duplication / delay of data, acks, Disconnect and DisconnectAck, blackouts (one or both ways) right after the call, both sides calling in 15 % of the cases; 30 % short sessions (call 50..1900 ms in), 30 % with the first 1..3 DisconnectAcks lost, 35 % ending with zero-length Reliable markers. non-trivial: a flush obligation (Reliable packet queued before the call) was checked, or a Disconnect exchange took place with queued data.",
+    "History check: the peer's Disconnect event comes after the Receive of every Reliable packet submitted before disconnect() (void if the peer disconnected / dropped first, or the caller escalated to disconnect_now / drop); both ends reach a terminal event within 22 s (or their active timeout) + 12 step intervals of the first Disconnect frame (an endpoint whose own request went out later gets the budget of its own request); disconnect_now() puts the request on the wire by the caller's next step; a passively closed peer answers every repeated request delivered to it in the 18 s after its Disconnect event (so a reachable peer never leaves the caller to time out); nothing after the terminal event (C08 automaton).",
     "history oracle on event order and virtual-time budget",
-    dict(quick=800, thorough=20000), require=["c09_flush_obligations_checked", "c09_disconnect_exchanges", "c09_disconnect_now_checked"])
+    dict(quick=800, thorough=20000), require=["c09_flush_obligations_checked", "c09_disconnect_exchanges", "c09_disconnect_now_checked", "c09_repeated_requests_to_lingering_peer", "c09_zero_length_obligations"])
 
 ep_prop("C10",
     lambda tier: [ep("timers", 3000, 100000, tier, "C10")],
-    "timers: one client and a server with active timeouts 1..120 s, keepalive on/off with intervals 0.5..30 s, SYN / SYN-ACK / ACK lost 0..11 times (handshakes lasting 0..22 s), step cadences 1 ms..1 s, busy then idle phases, a total or one-way blackout from a random moment; in 40 % of scenarios one side calls disconnect / disconnect_now 0 ms..10 s after its Connect event (also while a handshake resend timer may still be pending) and the first 0..11 or all of its Disconnect requests are lost. non-trivial: a timeout fired, a disconnect attempt was judged, or the connection stayed idle for >= 3 timeouts.",
-    "Reference timer model from the relayed frames and step times: Error(Timeout) on an established connection only at a step where the last read of a Data/Ack/Sync frame (or the establishing handshake frame) is >= active_timeout_ms ago, and at the first such step; handshake attempts end with Timeout after exactly 1+10 SYNs and not before 22 s; server-side pending entries after 11 SYN-ACKs; SYN resends never closer than 2 s; disconnect attempts: requests never closer than 2 s, at most 1+10 of them, Error(Timeout) only after all 11 and not before 22 s after the first, nor later than that plus 12 steps; with keepalive on (both directions inside the documented max(interval, 2 s, RTO) pace) an idle connection on a loss-free network never times out.",
+    "timers: one client and a server with active timeouts 1..120 s, keepalive on/off with intervals 0.5..30 s, SYN / SYN-ACK / ACK lost 0..11 times (handshakes lasting 0..22 s), step cadences 1 ms..1 s, busy then idle phases, a total or one-way blackout from a random moment; in 40 % of scenarios one side calls disconnect / disconnect_now 0 ms..10 s after its Connect event (also while a handshake resend timer may still be pending) and the first 0..11 or all of its Disconnect requests are lost; 15 % are the plain keepalive case: a short exchange in both directions, then 1..3 minutes idle on a loss-free network with keepalive on both sides, small steps and latencies. non-trivial: a timeout fired, a disconnect attempt was judged, or the connection stayed idle for >= 3 timeouts.",
+    "Reference timer model from the relayed frames and step times: Error(Timeout) on an established connection only at a step where the last read of a Data/Ack/Sync frame (or the establishing handshake frame) is >= active_timeout_ms ago, and at the first such step; handshake attempts end with Timeout after exactly 1+10 SYNs and not before 22 s; server-side pending entries after 11 SYN-ACKs; SYN resends never closer than 2 s; disconnect attempts: requests never closer than 2 s, at most 1+10 of them, Error(Timeout) only after all 11 and not before 22 s after the first, nor later than that plus 12 steps; with keepalive on (both directions inside the documented max(interval, 2 s, RTO) pace, RTO as observed; or, for steps <= 100 ms and latency <= 50 ms, inside max(interval, 2 s) + 3.5 s without reference to the endpoints' own RTO, which is at most 2 s there a priori) an idle connection on a network that lost nothing after the handshake never times out.",
     "reference timer model over recorded deliveries and step times",
-    dict(quick=1500, thorough=30000), require=["c10_timeouts_checked", "c10_handshake_timeouts_checked", "c10_keepalive_cases_checked", "c10_disconnect_attempts_checked", "c10_disconnect_timeouts_checked"])
+    dict(quick=1500, thorough=30000), require=["c10_timeouts_checked", "c10_handshake_timeouts_checked", "c10_keepalive_cases_checked", "c10_keepalive_cases_checked_fast_domain", "c10_disconnect_attempts_checked", "c10_disconnect_timeouts_checked"])
 
 ep_prop("C17",
     lambda tier: [ep("limits", 2500, 80000, tier, "C17")],
     "limits: max_active 1..8, max_total up to 16, 1..40 clients arriving in bursts, staggered or in waves; all first ACKs lost (many SYNs before any ACK), lossy handshakes; connections ended by disconnect from either side, Client drop, Server::drop or silent death (timeout); clients that disconnected come back from the same address 0.1..9 s later and stay; a late wave of max_total+2 handshakes from fresh addresses whose ACKs are all lost arrives 26..48 s in (after the server's 20 s memory of ended connections has expired); finally everything ends and, 50 s later, a fresh client must connect. non-trivial: more clients than max_active and >= 1 connection ended by the script.",
     "Counters after every server call: connections between Connect and their terminal event / the server's own Disconnect <= max_active_connections; addresses for which Server::client() is Some <= max_total_connections; ServerFull refusals are mirrored by server error events when enabled; capacity is available again after everything ended. Offline admission check from wire + events only (independent of the server's own table): at every newly admitted handshake (fresh SYN-ACK nonce pair) the established connections plus the handshakes provably in progress (same SYN-ACK repeated later / Connect later) number < max_total_connections.",
     "online counters over the server's event stream and public lookup",
-    dict(quick=1200, thorough=30000), require=["c17_refused_with_serverfull", "c17_capacity_reuse_checked", "c17_connections_ended_by_script", "c17_admissions_checked", "c17_reconnects_from_same_address", "c17_late_wave_handshakes"])
+    dict(quick=1200, thorough=30000), require=["c17_refused_with_serverfull", "c17_capacity_reuse_checked", "c17_connections_ended_by_script", "c17_admissions_checked", "c17_reconnects_from_same_address", "c17_late_wave_handshakes"],
+    also=["C07:established-connection-untracked"])
 
 ep_prop("C18",
     lambda tier: [ep("amplify", 3000, 100000, tier, "C18"),
